@@ -846,6 +846,7 @@ func checkC16(p *Prog, r *Report) {
 	ruleMapIterators(p, r)
 	ruleNoNondetSources(p, r)
 	ruleNoClockInComputation(p, r, "R16.6")
+	ruleOpenFlags(p, r, "R16.7")
 	r.Trusted = []string{"go/ssa construction", "sort/slices/maps.Keys+Sorted are deterministic functions of their input",
 		"distinct entries of one map do not alias each other's memory (stated assumption for ELEMSTORE)",
 		"standard-library functions not listed in libWrites (effects.go) do not write through their arguments"}
